@@ -351,6 +351,90 @@ pub fn to_rec(v: &DVal, log: Option<FindLog>, yield_in_find: bool) -> RecObj {
     }
 }
 
+// Representation 6b: recording object that relies on the *provided* `Object::find` (it only
+// implements `get` / `keys` / `len`), so that every single step of a path lookup is logged at the
+// object it is made on: (location, name asked for); a `keys()` call is logged as "<keys>".
+pub struct GetObj {
+    pub at: String,
+    pub map: Vec<(String, GetVal)>,
+    pub log: FindLog,
+}
+pub struct GetArr(pub Vec<GetVal>);
+pub enum GetVal {
+    Null,
+    Bool(bool),
+    Int(i64),
+    UInt(u64),
+    Float(f64),
+    Str(String),
+    Arr(GetArr),
+    Obj(GetObj),
+}
+impl GetVal {
+    fn value(&self) -> Value<'_> {
+        match self {
+            GetVal::Null => Value::Null,
+            GetVal::Bool(b) => Value::Bool(*b),
+            GetVal::Int(i) => Value::Int(*i),
+            GetVal::UInt(u) => Value::UInt(*u),
+            GetVal::Float(f) => Value::Float(*f),
+            GetVal::Str(s) => Value::String(Cow::Borrowed(s)),
+            GetVal::Arr(a) => Value::Array(a),
+            GetVal::Obj(o) => Value::Object(o),
+        }
+    }
+}
+impl Array for GetArr {
+    fn iter(&self) -> Box<dyn Iterator<Item = Value<'_>> + '_> {
+        Box::new(self.0.iter().map(|v| v.value()))
+    }
+    fn len(&self) -> usize {
+        self.0.len()
+    }
+}
+impl Object for GetObj {
+    fn get(&self, key: &str) -> Option<Value<'_>> {
+        self.log.lock().unwrap().push((self.at.clone(), key.to_string()));
+        self.map.iter().rev().find(|(k, _)| k == key).map(|(_, v)| v.value())
+    }
+    fn keys(&self) -> Vec<Cow<'_, str>> {
+        self.log.lock().unwrap().push((self.at.clone(), "<keys>".to_string()));
+        self.map.iter().map(|(k, _)| Cow::Borrowed(k.as_str())).collect()
+    }
+    fn len(&self) -> usize {
+        self.map.len()
+    }
+}
+fn to_getval(v: &DVal, at: &str, log: &FindLog) -> GetVal {
+    match v {
+        DVal::Null => GetVal::Null,
+        DVal::Bool(b) => GetVal::Bool(*b),
+        DVal::Int(i) => GetVal::Int(*i),
+        DVal::UInt(u) => GetVal::UInt(*u),
+        DVal::Float(f) => GetVal::Float(*f),
+        DVal::Str(s) => GetVal::Str(s.clone()),
+        DVal::Arr(a) => GetVal::Arr(GetArr(a.iter().map(|x| to_getval(x, at, log)).collect())),
+        DVal::Obj(o) => GetVal::Obj(GetObj {
+            at: at.to_string(),
+            map: o
+                .iter()
+                .map(|(k, v)| {
+                    let p = if at.is_empty() { k.clone() } else { format!("{}.{}", at, k) };
+                    (k.clone(), to_getval(v, &p, log))
+                })
+                .collect(),
+            log: log.clone(),
+        }),
+    }
+}
+/// (locations carry no array indices: an element of `a` sits at location `a`)
+pub fn to_getobj(v: &DVal, log: FindLog) -> GetObj {
+    match to_getval(v, "", &log) {
+        GetVal::Obj(o) => o,
+        _ => GetObj { at: String::new(), map: vec![], log },
+    }
+}
+
 /// Representation 7: a bare `Document` (not an `Object`) answering from a flat table of
 /// pre-resolved keys; anything else is absent. Used to check that the engine needs nothing but
 /// `Document::find`, and for adversarial answers.
